@@ -97,6 +97,8 @@ DISPATCH_BUDGET = {"quick": 640, "thorough": 32000}
 
 
 LAYOUT_BUDGET = {"quick": 320, "thorough": 16000}
+# the invariants over the complete cycle (price updates and driver phases included) live in one module
+EXTRA_TARGETS = {p: ["Properties.Full"] for p in ("C02", "C07", "C08", "C10", "C17")}
 TIMED_REQUEST_DIFFS = r"admitted|cancelled|requests present"
 
 
@@ -106,7 +108,7 @@ def control_check(prop: str, tier: str, seed: int, *, mon_props: Optional[List[s
                   with_timed: bool = False, with_layout: bool = False) -> int:
     """the common shape: theorems about the control model + history correspondence + monitors"""
     v = fw.Verdict(prop, tier, seed, level)
-    targets = targets or [f"Properties.{prop}"]
+    targets = targets or ([f"Properties.{prop}"] + EXTRA_TARGETS.get(prop, []))
     ps = fw.ProofStatus(prop, targets)
     n_hist, steps = HIST_BUDGET[tier]
     layer = layers.hist_layer(seed, n_hist, steps)
@@ -273,7 +275,7 @@ COLL_BUDGET = {"quick": 320, "thorough": 20000}
 @register("C08")
 def check_C08(tier: str, seed: int) -> int:
     v = fw.Verdict("C08", tier, seed, "proof")
-    ps = fw.ProofStatus("C08", ["Properties.C08"])
+    ps = fw.ProofStatus("C08", ["Properties.C08"] + EXTRA_TARGETS["C08"])
     cl = layers.coll_layer(seed, COLL_BUDGET[tier])
     ok1 = use_simple_layer(v, "C08", cl, "coll", ["C08"])
     n_hist, steps = HIST_BUDGET[tier]
